@@ -284,6 +284,9 @@ def runOp (op : String) (args : List String) : Option (String × String) :=
         | some rt => "SOME|" ++ sFq2 rt ++ "|" ++ sFq2 (rt * rt)
         | none => "NONE"
       pure (m, if Spec.Q2.isSq s then "SOME|*|" ++ sSQ2 s else "NONE")
+  | ["fq2", "law"], [a, b] => do
+      let x ← pFq2 a; let y ← pFq2 b; let sx ← spQ2 a; let sy ← spQ2 b
+      pure (sFq2 (x * y) ++ "|LAWS-OK", sSQ2 (Spec.Q2.mul sx sy) ++ "|LAWS-OK")
   | ["fq2", o], [a, b] => do
       let x ← pFq2 a; let y ← pFq2 b; let sx ← spQ2 a; let sy ← spQ2 b
       let m ← fq2Bin o x y; let s ← sp2Bin o sx sy
